@@ -369,12 +369,19 @@ Definition patch_state (st : state) (ats : option (list code)) (r : row) : row :
 
 Definition lift (m : M) : CM := fun c => let (d1, ok) := m (fst c) in ((d1, snd c), ok).
 
-(* UpdatePlan: patch the plan item, then replaceSearch (a ReplaceItem batch on the search partition) *)
-Definition updatePlan (id : uid) (rs : reason) (st : state) (sub : Z) : CM :=
+(* UpdatePlan: patch the plan item, then replaceSearch (a ReplaceItem batch on the search partition).
+   stage: 2 = no fault, 1 = the search batch is refused: the error is returned, the plan item is
+   already patched (the search entry is stale). *)
+Definition updatePlan_stage (stage : nat) (id : uid) (rs : reason) (st : state) (sub : Z) : CM :=
   fun c =>
     let (d1, ok) := patchItem id id (patch_plan rs st sub) (fst c) in
     if negb ok then (c, false)
-    else if memb id (snd c) then ((d1, snd c), true) else ((d1, snd c), false).
+    else match stage with
+         | 1 => ((d1, snd c), false)
+         | _ => if memb id (snd c) then ((d1, snd c), true) else ((d1, snd c), false)
+         end.
+
+Definition updatePlan : uid -> reason -> state -> Z -> CM := updatePlan_stage 2.
 
 Definition updateObject (pid id : uid) (st : state) : CM := lift (patchItem pid id (patch_state st None)).
 
